@@ -112,6 +112,16 @@ def step (s : St) (args : List String) : St × String × String :=
   | ["ret"] => (s, s.ret, s.ret)
   | ["mon"] => (s, s.mon, s.mon)
   | _ =>
+    -- a leading `f` on the injection: the transport's Impl.Close reports an error (while it does close the
+    -- stream).  BaseClient.Close marks the client closed first and hands that error on, so everything is
+    -- as without it except the class Close returns when an Impl exists.
+    let (failClose, args) := match args with
+      | ["new", mode, qt, script, inj] =>
+          (match inj.toList with
+           | 'f' :: rest => (true, ["new", mode, qt, script, String.ofList rest])
+           | _ => (false, args))
+      | _ => (false, args)
+    let fixRet (r : String) : String := if failClose then r.replace "close=nil" "close=err" else r
     match parse args with
     | none => ({}, "bad-op", "bad-op")
     | some sc =>
@@ -124,7 +134,7 @@ def step (s : St) (args : List String) : St × String × String :=
             else ({}, "bad-scenario", "bad-scenario")
         | _ =>
         match render sc (runScenario sc) with
-        | some (t, r, m) => ({ ret := r, mon := m }, t, t)
+        | some (t, r, m) => ({ ret := fixRet r, mon := m }, t, t)
         | none => ({}, "bad-scenario", "bad-scenario")
 
 end Driver.RC
